@@ -1252,8 +1252,28 @@ def run(ctx) -> None:
         (hd / "module.py").write_text(v1)
         plan = [{"op": "run", "argv": ["module.py", "--enable-all", "--quiet"]}, {"op": "write", "path": "module.py", "text": v2},
                 {"op": "run", "argv": ["module.py", "--enable-all", "--quiet"]}, {"op": "write", "path": "module.py", "text": v1},
-                {"op": "run", "argv": ["module.py", "--enable-all", "--quiet"]}]
+                {"op": "run", "argv": ["module.py", "--enable-all", "--quiet"]},
+                # the same report as a terminal and as a GitHub workflow get it
+                {"op": "run", "argv": ["module.py", "--enable-all", "--quiet"], "color": True},
+                {"op": "run", "argv": ["module.py", "--enable-all", "--quiet", "--format", "github"]}]
         outs_h = _c11.in_process(hd, plan, "rewrite")
+    starts_v1 = {(t.start[0], len(v1.split("\n")[t.start[0] - 1][: t.start[1]].encode("utf8")) + 1) for t in toks_of(v1) if t.type not in (tokenize.NEWLINE, tokenize.NL, tokenize.INDENT, tokenize.DEDENT, tokenize.ENDMARKER, tokenize.COMMENT)}
+    plain_v1 = sorted((x["line"], x["col"]) for x in core.parse_plain(outs_h[2])[0])
+    for name_r, out_r in (("coloured (terminal)", re.sub(r"\x1b\[[0-9;]*m", "", outs_h[3])), ("GitHub annotation", outs_h[4])):
+        if name_r.startswith("GitHub"):
+            got_r = sorted((int(a), int(b)) for a, b in re.findall(r"^::error line=(-?\d+),col=(-?\d+),", out_r, flags=re.M))
+        else:
+            got_r = sorted((x["line"], x["col"]) for x in core.parse_plain(out_r)[0])
+        res.case(("rendering-positions", name_r))
+        res.bump("rendering_position_runs")
+        bad_r = [p for p in got_r if p not in starts_v1]
+        if bad_r or got_r != plain_v1:
+            res.violate(
+                f"the {name_r} rendering of a report places a diagnostic at {(bad_r or got_r)[0][0]}:{(bad_r or got_r)[0][1]}, " + ("where no token of the file starts" if bad_r else "not where the plain rendering of the same run does"),
+                {"kind": "rendering-position", "rendering": name_r.split()[0]},
+                {"file": v1, "report": out_r, "plain_positions": plain_v1, "positions": got_r, "how": "refurb.main.run_refurb + format_errors in one process (harness/props/c11.py:WORKER) with settings.color set / --format github"},
+            )
+    outs_h = outs_h[:3]
     for step, (text_now, out_h) in enumerate(zip((v1, v2, v1), outs_h)):
         diags_h, _oth = core.parse_plain(out_h)
         starts = {(t.start[0], len(text_now.split("\n")[t.start[0] - 1][: t.start[1]].encode("utf8")) + 1) for t in toks_of(text_now) if t.type not in (tokenize.NEWLINE, tokenize.NL, tokenize.INDENT, tokenize.DEDENT, tokenize.ENDMARKER, tokenize.COMMENT)}
